@@ -4,6 +4,7 @@ package main
 
 import (
 	"fmt"
+	"go/token"
 	"go/types"
 
 	"golang.org/x/tools/go/ssa"
@@ -469,6 +470,16 @@ func ruleScMust(w *World, r *Report, l *evalLoop) {
 							if m == scT {
 								nx.fToff = true
 							}
+						} else if mT, mF, eq, ok := flagMaskPhiTest(cond, func(v ssa.Value) bool {
+							return isBoolAssert(v, 0) && v.(*ssa.Extract).Tuple == ssa.Value(ta)
+						}); ok && eq != truth {
+							// the mask chosen first: mask := b ? scIfTrue : scIfFalse; flag&mask == mask came out false
+							if x.bv == 1 && mT == scT {
+								nx.fToff = true
+							}
+							if x.bv == 2 && mF == scF {
+								nx.fFoff = true
+							}
 						}
 					}
 				}
@@ -506,6 +517,10 @@ func ruleScMust(w *World, r *Report, l *evalLoop) {
 }
 
 var scMustWitnesses = []Witness{
+	{Name: "benign-short-circuit-mask-chosen-first", Benign: true, Doc: "large refactoring B01", Edits: []Edit{
+		{File: "engine.go", Old: "		if b, ok := res.(bool); ok {\n			for (!b && curt.flag&scIfFalse == scIfFalse) ||\n				(b && curt.flag&scIfTrue == scIfTrue) {\n				i = curt.scIdx\n				if i == -1 {\n					return\n				}\n\n				curt = nodes[i]\n				osTop = curt.osTop - 1\n			}\n		}\n\n		os[osTop+1], osTop = res, osTop+1\n	}\n	return os[0], nil", New: "		if b, ok := res.(bool); ok {\n			scFlag := scIfFalse\n			if b {\n				scFlag = scIfTrue\n			}\n			for curt.flag&scFlag == scFlag {\n				i = curt.scIdx\n				if i == -1 {\n					return\n				}\n\n				curt = nodes[i]\n				osTop = curt.osTop - 1\n			}\n		}\n\n		os[osTop+1], osTop = res, osTop+1\n	}\n	return os[0], nil"}}},
+	{Name: "short-circuit-mask-chosen-first-true-needs-both-flags", Rule: "R-SCMUST", Edits: []Edit{
+		{File: "engine.go", Old: "		if b, ok := res.(bool); ok {\n			for (!b && curt.flag&scIfFalse == scIfFalse) ||\n				(b && curt.flag&scIfTrue == scIfTrue) {\n				i = curt.scIdx\n				if i == -1 {\n					return\n				}\n\n				curt = nodes[i]\n				osTop = curt.osTop - 1\n			}\n		}\n\n		os[osTop+1], osTop = res, osTop+1\n	}\n	return os[0], nil", New: "		if b, ok := res.(bool); ok {\n			scFlag := scIfFalse\n			if b {\n				scFlag = scMask\n			}\n			for curt.flag&scFlag == scFlag {\n				i = curt.scIdx\n				if i == -1 {\n					return\n				}\n\n				curt = nodes[i]\n				osTop = curt.osTop - 1\n			}\n		}\n\n		os[osTop+1], osTop = res, osTop+1\n	}\n	return os[0], nil"}}},
 	{Name: "short-circuit-only-for-non-bool-results", Rule: "R-SCMUST", Doc: "mechanical mutant (negated condition) that survives the suite and every earlier rule", Edits: []Edit{
 		{File: "engine.go", Old: "		if b, ok := res.(bool); ok {\n			for (!b && curt.flag&scIfFalse == scIfFalse) ||\n				(b && curt.flag&scIfTrue == scIfTrue) {\n				i = curt.scIdx\n				if i == -1 {\n					return\n				}\n\n				curt = nodes[i]\n				osTop = curt.osTop - 1\n			}\n		}\n\n		os[osTop+1], osTop = res, osTop+1\n	}\n	return os[0], nil", New: "		if b, ok := res.(bool); !ok {\n			for (!b && curt.flag&scIfFalse == scIfFalse) ||\n				(b && curt.flag&scIfTrue == scIfTrue) {\n				i = curt.scIdx\n				if i == -1 {\n					return\n				}\n\n				curt = nodes[i]\n				osTop = curt.osTop - 1\n			}\n		}\n\n		os[osTop+1], osTop = res, osTop+1\n	}\n	return os[0], nil"}}},
 	{Name: "true-results-never-short-circuit", Rule: "R-SCMUST", Edits: []Edit{
@@ -524,4 +539,64 @@ var wave9Witnesses15 = []Witness{
 var wave9Witnesses18 = []Witness{
 	{Name: "folding-replaces-and-or-by-its-only-non-constant-operand", Rule: "R-FOLDOK", Doc: "seeded change C18-i", Edits: []Edit{
 		{File: "compiler.go", Old: "				root.children = nil\n				return\n			}\n		}\n	}\n\n	params := make([]Value, len(root.children))", New: "				root.children = nil\n				return\n			}\n		}\n		var rest []*astNode\n		for _, child := range root.children {\n			if child.node.getNodeType() != constant {\n				rest = append(rest, child)\n			}\n		}\n		if len(rest) == 1 {\n			*root = *rest[0]\n			return\n		}\n	}\n\n	params := make([]Value, len(root.children))"}}},
+}
+
+
+// flagMaskPhiTest matches `node.flag & M == M` (or !=) where M is a phi of two constants chosen by the truth of a
+// value accepted by isB (mask := b ? T : F); it returns the constant for b true and for b false.
+func flagMaskPhiTest(v ssa.Value, isB func(ssa.Value) bool) (mT, mF int64, eq bool, ok bool) {
+	bo, isBO := v.(*ssa.BinOp)
+	if !isBO || (bo.Op != token.EQL && bo.Op != token.NEQ) {
+		return 0, 0, false, false
+	}
+	for _, side := range [][2]ssa.Value{{bo.X, bo.Y}, {bo.Y, bo.X}} {
+		and, okA := side[0].(*ssa.BinOp)
+		mask, okP := side[1].(*ssa.Phi)
+		if !okA || !okP || and.Op != token.AND {
+			continue
+		}
+		var flagSide ssa.Value
+		switch {
+		case and.X == ssa.Value(mask):
+			flagSide = and.Y
+		case and.Y == ssa.Value(mask):
+			flagSide = and.X
+		default:
+			continue
+		}
+		if _, okf := loadOfField(flagSide, "node", "flag"); !okf {
+			continue
+		}
+		haveT, haveF := false, false
+		good := true
+		for i, e := range mask.Edges {
+			if e == ssa.Value(mask) {
+				continue
+			}
+			c, okc := constInt(e)
+			if !okc {
+				good = false
+				continue
+			}
+			pred := mask.Block().Preds[i]
+			known := false
+			for _, pf := range append(factsAt(pred), factsAtEdgeTo(pred, mask.Block())...) {
+				if isB(pf.Cond) {
+					known = true
+					if pf.Truth {
+						mT, haveT = c, true
+					} else {
+						mF, haveF = c, true
+					}
+				}
+			}
+			if !known {
+				good = false
+			}
+		}
+		if good && haveT && haveF {
+			return mT, mF, bo.Op == token.EQL, true
+		}
+	}
+	return 0, 0, false, false
 }
